@@ -120,6 +120,9 @@ def events_for(cls, ref, tier):
     for name in sorted(ref.A):
         ev.append(["adel", name])
     ev.append(["areplace", {"units": "r0", "_priv": "r1"}])
+    ev.append(["areplace_self"])         # obj.attrs = obj.attrs: replacing the metadata by itself changes nothing
+    if cls == "Axis":
+        ev.append(["set_copy"])          # Axis.set(attrs=..., inplace=False): the COPY gets the metadata, this axis keeps its own
     ev.append(["aclear"])
     return ev
 
@@ -155,6 +158,10 @@ def apply_impl(obj, ev):
         del obj.attrs[ev[1]]; return None
     if k == "areplace":
         obj.attrs = dict(ev[1]); return None
+    if k == "areplace_self":
+        obj.attrs = obj.attrs; return None
+    if k == "set_copy":
+        return dict(obj.set(attrs={"k_": 1}, inplace=False).attrs)
     if k == "aclear":
         del obj.attrs; return None
     raise ValueError(ev)
@@ -225,6 +232,10 @@ def apply_ref(ref, ev):
     if k == "areplace":
         ref.A = dict(ev[1])
         return ("none",)
+    if k == "areplace_self":
+        return ("none",)
+    if k == "set_copy":
+        return ("value", {"k_": 1})
     if k == "aclear":
         ref.A = {}
         return ("none",)
